@@ -21,7 +21,10 @@ pub const PLO: f64 = 0.6;
 pub const PHI: f64 = 2.5;
 
 pub fn random_recipe(rng: &mut Rng, o: &GenOpts) -> Recipe {
-    let kinds_par = [Kind::Exp, Kind::Gauss, Kind::Sinus, Kind::Lorentz, Kind::Quad, Kind::Exp, Kind::Gauss];
+    let kinds_all = [Kind::Exp, Kind::Gauss, Kind::Sinus, Kind::Lorentz, Kind::Quad, Kind::Exp, Kind::Gauss];
+    // `quad` (a·x + a²) together with `one`/`lin` is not identifiable; the smooth-only streams avoid it
+    let kinds_smooth = [Kind::Exp, Kind::Gauss, Kind::Sinus, Kind::Lorentz, Kind::Exp, Kind::Gauss, Kind::Exp];
+    let kinds_par = if o.smooth_only { kinds_smooth } else { kinds_all };
     loop {
         let m = rng.range(1, o.max_m);
         let mut fns: Vec<FnSpec> = Vec::new();
